@@ -17,6 +17,7 @@ OBLIGATIONS = [
     (P + "save_load_roundtrip_framed", "the same at any position inside a larger archive"),
     (P + "pod_codec_roundtrip", "unsigned-integer object representation (either byte order, from the compiler's macros): decode(encode n) = n mod 256^k, k bytes, encode(decode b) = b"),
     (P + "operator_lt_order", "operator< of the model: strict weak order on every type (asymmetric, negatively transitive, transitive); total (incomparable => equal) on well-formed values of key types"),
+    (P + "container_elements_load_independently", "vector/list/set/multiset load = count + a chain of the one state-only element load into a default-constructed object (value_type tmp inside the loop, pinned by the translator); a tagged user class is loaded by loadTaggedInto on the default object"),
     (P + "multi_containers_keep_load_order", "multimap/multiset load of any archive: result is a permutation of the entries read and every key class keeps its archive order (stable)"),
     (P + "unique_containers_keep_first", "map/set load of any archive: of the entries of one key class exactly the first one read survives"),
     (P + "json_law_from_C11", "the jsonRT hypothesis for C11's codec (compact save, full load; flags regenerated from archive_traits.h) is C11's write_parse_roundtrip_partial with mapNum rt v = v"),
@@ -36,7 +37,8 @@ TYPES = ("B.L.s B.M.s.v4 B.p4 B.s C.s L.C.p4 L.L.s L.R.s L.X.p4.s L.s L.v2 M.P.p
          "S.L.s S.P.p2.s S.p4 S.p8 S.s S.v1 U.L.s U.s X.R.s.Q.P.p4.s X.p4.s X.s.X.v2.S.s d8 i4 p1 p2 p4 p8 s v1 v2 v4 v8 "
          "W.p4 W.s W.P.p1.s L.W.p2 N.p4.s N.s.v4 N.p1.W.s M.W.p1.s B.A3.s B.p12 B.A2.L.s X.p8.A2.S.s B.A1.M.s.p4 "
          "j L.j M.s.j R.j P.p4.j B.j X.j.s H.s H.v4 B.H.M.s.p2 K.s L.K.p4 K.S.s I.s Q.I.v2 X.I.p4.H.s "
-         "S.v2 M.v4.p1 S.v8 S.S.p2 S.M.p1.s S.Q.p4 S.W.s S.P.s.v2").split()
+         "S.v2 M.v4.p1 S.v8 S.S.p2 S.M.p1.s S.Q.p4 S.W.s S.P.s.v2 "
+         "T.s.v4 L.T.s.v4 Q.T.s.v4 M.s.L.T.s.v4 B.L.T.s.v4 X.L.T.s.v4.M.s.L.T.s.v4 T.T.s.v4.s L.P.p4.T.s.v4 Q.R.T.s.v4 L.T.p2.M.p1.s N.p4.L.T.s.v4 L.L.T.s.v4").split()
 
 
 def keyable_name(name):
@@ -49,7 +51,7 @@ HARNESS_ENV = {"ASAN_OPTIONS": "detect_leaks=0:abort_on_error=0:allocator_may_re
 POD = {"p1": 1, "p2": 2, "p4": 4, "p8": 8, "i4": 4, "d8": 8}
 VEC = {"v1": 1, "v2": 2, "v4": 4, "v8": 8}
 UN = {"L": "seq", "Q": "seq", "S": "set", "R": "ptr", "U": "ptr", "C": "ptr", "H": "ptr", "K": "ptr", "I": "ptr", "B": "box", "W": "mset"}
-BIN = {"M": "map", "P": "pair", "X": "pair", "N": "mmap"}
+BIN = {"M": "map", "P": "pair", "X": "pair", "N": "mmap", "T": "tagged"}
 
 
 def parse_ty(words):
@@ -136,10 +138,44 @@ def savable(t, v):
         return savable(t[1], v[0]) and savable(t[2], v[1])
     if k == "ptr":
         return v is None or savable(t[1], v[1])
+    if k == "tagged":
+        sel = tag_sel(v[0])
+        return savable(t[1], v[1]) if sel == 1 else (savable(t[2], v[2]) if sel == 2 else True)
+
+
+def dflt(t):
+    """the default-constructed object"""
+    k = t[0]
+    if k == "pod":
+        return bytes(t[1])
+    if k in ("str", "vec"):
+        return b""
+    if k in ("seq", "set", "mset", "map", "mmap"):
+        return []
+    if k == "arr":
+        return [dflt(t[1]) for _ in range(t[2])]
+    if k == "pair":
+        return (dflt(t[1]), dflt(t[2]))
+    if k == "ptr":
+        return None
+    if k == "json":
+        return ("JU",)
+    if k == "tagged":
+        return (bytes(4), dflt(t[1]), dflt(t[2]))
+
+
+def tag_sel(kind):
+    n = int.from_bytes(kind, "little")
+    return n if n in (1, 2) else 0
 
 
 def gen_val(rng, t, big=1000, depth=0):
     k = t[0]
+    if k == "tagged":
+        kind = struct.pack("<I", rng.choice((0, 0, 1, 1, 1, 2, 2, 3, 0xffffffff, 256, 0x01000000)))
+        sel = tag_sel(kind)
+        return (kind, gen_val(rng, t[1], big, depth + 1) if sel == 1 else dflt(t[1]),
+                gen_val(rng, t[2], big, depth + 1) if sel == 2 else dflt(t[2]))
     if k == "json":
         return ("JU",) if rng.random() < 0.04 else ("J", gen_json_text(rng))
     if k == "pod":
@@ -200,6 +236,49 @@ def perturb(rng, t, v):
     return v
 
 
+def same_size_variant(rng, t, v):
+    """an object with the same serialized size that differs in a late byte (or None): change the last byte of the
+    last non-empty leaf that is serialized"""
+    k = t[0]
+    if k in ("pod", "str", "vec"):
+        if not v:
+            return None
+        return v[:-1] + bytes([v[-1] ^ (1 << rng.randrange(8))])
+    if k in ("seq", "arr"):
+        for i in range(len(v) - 1, -1, -1):
+            w = same_size_variant(rng, t[1], v[i])
+            if w is not None:
+                return v[:i] + [w] + v[i + 1:]
+        return None
+    if k in ("map", "mmap"):
+        for i in range(len(v) - 1, -1, -1):
+            w = same_size_variant(rng, t[2], v[i][1])
+            if w is not None:
+                return v[:i] + [(v[i][0], w)] + v[i + 1:]
+        return None
+    if k == "pair":
+        w = same_size_variant(rng, t[2], v[1])
+        if w is not None:
+            return (v[0], w)
+        w = same_size_variant(rng, t[1], v[0])
+        return None if w is None else (w, v[1])
+    if k == "ptr":
+        if v is None:
+            return None
+        w = same_size_variant(rng, t[1], v[1])
+        return None if w is None else ("some", w)
+    if k == "tagged":
+        sel = tag_sel(v[0])
+        if sel == 1:
+            w = same_size_variant(rng, t[1], v[1])
+            return None if w is None else (v[0], w, v[2])
+        if sel == 2:
+            w = same_size_variant(rng, t[2], v[2])
+            return None if w is None else (v[0], v[1], w)
+        return None
+    return None
+
+
 def key(t, v):
     """python ordering key = operator< of the C++ type"""
     k = t[0]
@@ -253,6 +332,8 @@ def norm(t, v):
         return (norm(t[1], v[0]), norm(t[2], v[1]))
     if k == "ptr":
         return None if v is None else ("some", norm(t[1], v[1]))
+    if k == "tagged":
+        return (v[0], norm(t[1], v[1]), norm(t[2], v[2]))
 
 
 def toks(t, v):
@@ -273,6 +354,8 @@ def toks(t, v):
         return toks(t[1], v[0]) + toks(t[2], v[1])
     if k == "ptr":
         return ["0"] if v is None else ["1"] + toks(t[1], v[1])
+    if k == "tagged":
+        return ["x" + v[0].hex()] + toks(t[1], v[1]) + toks(t[2], v[2])
 
 
 def py_save(t, v):
@@ -294,6 +377,9 @@ def py_save(t, v):
         return py_save(t[1], v[0]) + py_save(t[2], v[1])
     if k == "ptr":
         return chunk(b"\x01") if v is None else chunk(b"\x00") + py_save(t[1], v[1])
+    if k == "tagged":
+        sel = tag_sel(v[0])
+        return chunk(v[0]) + (py_save(t[1], v[1]) if sel == 1 else (py_save(t[2], v[2]) if sel == 2 else b""))
 
 
 # ---- malformed stream
@@ -457,7 +543,7 @@ def main():
     if rc != 0 or not o or o[0].split() != sorted(TYPES):
         c.broke("harness type registry differs from checks/c19.py TYPES", (o[0] if o else err)[:1500])
     types = {n: ty_of(n) for n in TYPES}
-    serializable = [n for n in TYPES if n[0] in "BX"]
+    serializable = [n for n in TYPES if n[0] in "BXT"]
 
     # ---- phase A: valid values
     corpus_dir = os.path.join(ROOT, "gen", "corpus", "C19")
@@ -487,6 +573,25 @@ def main():
             values.append((name, nv))
             ntk = " ".join(toks(t, nv))
             arch = hexs0(py_save(t, nv))
+            if name in serializable and i % 3 == 0:
+                # overwrite with an object of the same serialized size that differs late (after the NULs every archive has)
+                w2 = same_size_variant(rng, t, nv)
+                nb = norm(t, w2) if w2 is not None else None
+                if nb is None or nb == nv or len(py_save(t, nb)) != len(py_save(t, nv)):
+                    nb = norm(t, gen_val(rng, t, 300))
+                if savable(t, nb):
+                    btk = " ".join(toks(t, nb))
+                    for mode in (0, 1, 2):
+                        if mode == 0 and max(len(py_save(t, nv)), len(py_save(t, nb))) > 400:
+                            continue
+                        for first, second in ((ntk, btk), (btk, ntk)):
+                            line = f"zow{mode} {name} {first} {second}"
+                            casesA.append(line)
+                            expect[line] = "ok " + second
+                if i % 6 == 0:
+                    line = f"cpo {name} {ntk}"
+                    casesA.append(line)
+                    expect[line] = "miss"
             # the archive of the elements in the order generated (unsorted, duplicate keys): what the containers make of it
             raw = py_save(t, v)
             if raw != py_save(t, nv):
@@ -662,7 +767,7 @@ def main():
             continue
         w = cs.split()
         op = w[0].rstrip("+")
-        if op in ("rt", "srt", "crt", "zrt", "zsv", "save", "ssave", "cmp"):
+        if op in ("rt", "srt", "crt", "zrt", "zsv", "save", "ssave", "cmp", "zow0", "zow1", "zow2", "cpo"):
             if cs in expect and o != expect[cs]:
                 bad.append((k, "round trip / serialization differs from the value (python oracle)"))
         elif op in ("load", "sload", "load2"):
@@ -703,7 +808,7 @@ def main():
         for (k, l), o in zip(jl, jout + ["<none>"] * (len(jl) - len(jout))):
             if o != "1":
                 bad.append((k, "Spec.loadOutputOk false on the implementation's result (cursor outside, ill-formed value, or consumed bytes are not the value's serialization)"))
-    c.extra_cov["judged_impl_outputs"] = len(jl) + sum(1 for cs in cases if cs.split(" ", 1)[0].rstrip("+") in ("rt", "srt", "crt", "zrt", "zsv", "save", "ssave", "cmp", "ops"))
+    c.extra_cov["judged_impl_outputs"] = len(jl) + sum(1 for cs in cases if cs.split(" ", 1)[0].rstrip("+") in ("rt", "srt", "crt", "zrt", "zsv", "save", "ssave", "cmp", "zow0", "zow1", "zow2", "cpo", "ops"))
 
     for k, err in crashes:
         summ = [l.strip() for l in err.splitlines() if "SUMMARY" in l or "runtime error" in l or "ERROR: AddressSanitizer" in l]
